@@ -278,8 +278,19 @@ class Group:
         self.out.emit_src(hdr.rstrip() + " {", relf, it.line, "impl " + ipath)
 
     def apply_replace(self, d, arg, text, where, log):
+        if d in ("replace_re", "replace_re?", "replace?"):
+            # optional annotations are droppable: if the text they produce does not type-check on this tree the
+            # annotation is disabled and the function is verified without it
+            okey = "%s @ %s" % (where, parse_quoted_pair(arg)[0])
+            if okey in self.disabled_hints:
+                self.lost.append({"where": where, "anchor": parse_quoted_pair(arg)[0][:80], "why": "annotation does not type-check on this tree"})
+                return text
         if d in ("replace_re", "replace_re?"):
             a, b = parse_quoted_pair(arg)
+            if d.endswith("?"):
+                self.hint_keys.append("%s @ %s" % (where, a))
+                mk = "/*VXOPT %d*/" % (len(self.hint_keys) - 1)
+                b = mk + b.replace("\n", "\n" + mk)
             new, n = re.subn(a, b, text, flags=re.S)
             if n == 0:
                 if d.endswith("?"):
@@ -301,6 +312,10 @@ class Group:
             if n > 1 and d != "replace*":
                 raise Undecided("ambiguous anchor in %s: %r (%d)" % (where, a, n))
             log.append({"rule": "replace", "from": a, "to": b, "count": n})
+            if d == "replace?":
+                self.hint_keys.append("%s @ %s" % (where, a))
+                mk = "/*VXOPT %d*/" % (len(self.hint_keys) - 1)
+                b = mk + b.replace("\n", "\n" + mk)
             return text.replace(a, b)
         return text
 
@@ -489,7 +504,11 @@ class Group:
                     self.out.emit(part, {"kind": "hint", "file": relf, "line": body_first + k, "fn": fn_id,
                                          "hint": self.hint_keys[int(hm.group(1))]})
                 else:
-                    self.out.emit(part, {"kind": "src", "file": relf, "line": body_first + k, "fn": fn_id})
+                    om = re.search(r"/\*VXOPT (\d+)\*/", part)
+                    info = {"kind": "src", "file": relf, "line": body_first + k, "fn": fn_id}
+                    if om:
+                        info["opt"] = self.hint_keys[int(om.group(1))]
+                    self.out.emit(part, info)
         self.out.emit("}", {"kind": "src", "file": relf, "line": it.src.line_of(it.end - 1), "fn": fn_id})
         self.functions.append({"path": fn_id, "kind": "fn", "file": relf, "line": it.line,
                                "lines": raw.count("\n") + 1,
